@@ -274,12 +274,33 @@ def run(ctx):
             conditional_ok = c in ('promise', 'promise-none')
             rep.check(good and (e.must or conditional_ok), 'R-C04-1', key, '%s absorbs `%s` (whole, from the caller\'s data): %s' % (role, c, det),
                       '%s absorbs `%s` defectively (%s): %s' % (role, c, 'not on every path' if not (e.must or conditional_ok) else 'not the whole datum of the caller', det), ctx.where(e.body, e.bb))
+        # a datum absorbed element by element is absorbed to the end: every way out of the loop other than running out of elements refuses
+        for c in PHASE0 + ['li', 'ri', 'a1', 'b']:
+            for (i, e, good, det) in cls.get(c, [])[:1]:
+                early = []
+                for lpid in e.loops:
+                    if lpid[0] != 'L':
+                        continue
+                    lb = ctx.facts.by_key.get(lpid[1])
+                    lp = ctx.loops(lb).get(lpid[2]) if lb is not None else None
+                    if lp is not None and lp.driver_bb is not None and not lp.driver_only_exit:
+                        early.append((lb, lp))
+                if e.loops and any(l[0] == 'L' for l in e.loops):
+                    rep.check(not early, 'R-C04-1', 'R-C04-1/%s/%s/to-the-end' % (role, c), 'the loop that absorbs `%s` ends only when its elements run out (or by refusing)' % c,
+                              'the loop that absorbs `%s` can be left early without refusing (a failure inside it is discarded): the elements after that point are never absorbed' % c,
+                              ctx.where(early[0][0], early[0][1].header) if early else ctx.where(e.body, e.bb))
         # what is absorbed is the datum, not a copy that was overwritten between the datum and the absorption
         spoiled = [(e, wire.overwritten(e.data())) for e in mine if e.kind != 'challenge' and e.data() is not None]
         spoiled = [(e, o) for e, o in spoiled if o]
         rep.check(not spoiled, 'R-C04-1', 'R-C04-1/%s/integrity' % role, 'every absorbed value reaches the transcript as it is taken from its datum (no in-place change in between)',
                   'absorbed values changed in place before the absorption: %s' % [(e.label(), o) for e, o in spoiled][:4],
                   ctx.where(spoiled[0][0].body, spoiled[0][0].bb) if spoiled else ctx.where(body))
+        # .. and as an encoding of the datum: no other function of a stored datum stands between it and the absorbed bytes
+        rec = [(e, wire.recoded(e.data())) for e in mine if e.kind in ('append', 'append_u64') and e.data() is not None]
+        rec = [(e, o) for e, o in rec if o]
+        rep.check(not rec, 'R-C04-1', 'R-C04-1/%s/encoding' % role, 'every stored datum is absorbed through encodings only (compress / to_bytes / as_bytes ..)',
+                  'a stored datum is absorbed through a function that is not an encoding, so different data may be absorbed as the same bytes: %s' % [(e.label(), o) for e, o in rec][:4],
+                  ctx.where(rec[0][0].body, rec[0][0].bb) if rec else ctx.where(body))
         # the two promise alternatives are the only conditional absorptions
         cond = [e for i, e in enumerate(mine) if e.kind != 'challenge' and not e.must]
         pr_events = {id(x[1]) for c in ('promise', 'promise-none') for x in cls.get(c, [])}
